@@ -26,6 +26,7 @@ type SpecCtx struct {
 	vars     map[string]SV
 	entry    map[string]SV // parameter values at function entry
 	old      map[string]string
+	oldVars  map[string]SV // old() values of captured variables a called closure writes
 	inOld    bool
 	inLoop   bool // identifiers resolve to cells first
 	self     string
@@ -465,6 +466,11 @@ func (c *SpecCtx) ident(name string) SV {
 		return SV{V: T{"2147483647", "IntLit"}}
 	case "MaxInt64":
 		return SV{V: T{"9223372036854775807", "IntLit"}}
+	}
+	if c.inOld {
+		if v, ok := c.oldVars[name]; ok {
+			return v
+		}
 	}
 	if c.fr != nil && strings.Contains(name, "__") {
 		// name__k: the k-th declaration of a local called name in this function
